@@ -62,6 +62,9 @@ func roundTrip1(run *core.Run, d string, origin string) bool {
 		run.Count("inputs_rejected_by_parser", 1)
 		return false
 	}
+	if !parsedFinite(run, c, m1) {
+		return true
+	}
 	if m1.GetSchemaVersion() == "" {
 		run.Count("inputs_skipped_module_file", 1)
 		return false
@@ -104,6 +107,9 @@ func roundTrip1(run *core.Run, d string, origin string) bool {
 		run.Violation("rendering-does-not-parse", c, "the rendering parses", d1+"\n"+err.Error())
 		return true
 	}
+	if !parsedFinite(run, c, m2) {
+		return true
+	}
 	if !proto.Equal(trimExprs(m1), trimExprs(m2)) {
 		run.Violation("model-changed-by-round-trip", c, "M2 == M1 (condition expressions modulo surrounding whitespace)\n"+gen.PPModel(m1), "rendering:\n"+d1+"\nre-parsed:\n"+gen.PPModel(m2))
 		return true
@@ -116,6 +122,9 @@ func roundTrip1(run *core.Run, d string, origin string) bool {
 	m3, err := transformer.TransformDSLToProto(d2)
 	if err != nil {
 		run.Violation("second-rendering-does-not-parse", c, "the rendering parses", d2+"\n"+err.Error())
+		return true
+	}
+	if !parsedFinite(run, c, m3) {
 		return true
 	}
 	d3, err := transformer.TransformJSONProtoToDSL(m3)
